@@ -34,10 +34,14 @@ func (tr Trace) Completed(s Script) bool {
 // CheckC03 : concatenation equals the input, no empty slice, size rules.
 func CheckC03(s Script, tr Trace) error {
 	if tr.NewErr != "" {
-		return nil
+		// every generated configuration is inside the documented domain
+		return fmt.Errorf("constructor rejected a documented configuration: %s", tr.NewErr)
 	}
-	if tr.Deadlock != "" {
+	if tr.Deadlock != "" && tr.ClosedAt < 0 && s.Stop == nil {
 		return fmt.Errorf("run did not complete: output never closed after the input was closed (%s)", firstLine(tr.Deadlock))
+	}
+	if s.Stop != nil || tr.ClosedAt < 0 {
+		return nil // stopped runs may legitimately drop elements; decided by C16
 	}
 	n, lens := s.planned()
 	next := 0
@@ -185,11 +189,17 @@ func CheckC09(s Script, tr Trace) error {
 		return nil
 	}
 	for k, o := range tr.Outs {
-		if k == len(tr.Outs)-1 || len(o.Snap) == 0 {
+		if len(o.Snap) == 0 {
 			continue
+		}
+		if k == len(tr.Outs)-1 && o.At >= tr.CloseAt {
+			continue // the final slice, flushed by the closing of the input
 		}
 		if s.maximal(lens, o.Snap[0], len(o.Snap)) {
 			continue
+		}
+		if k > 0 && len(tr.Outs[k-1].Snap) == 0 {
+			continue // belongs to C03
 		}
 		// Lower bound of the moment slice k-1 was written to the output (the timer restarts
 		// after that): not before its last element was read from the input, and not before
@@ -255,7 +265,7 @@ func CheckC10(s Script, tr Trace) error {
 			}
 		}
 	}
-	if tr.Deadlock != "" {
+	if tr.Deadlock != "" && (seen < len(tr.WDone) || tr.Spin) {
 		// an element that was accepted and never came out while the consumer was ready
 		return fmt.Errorf("%d of %d accepted elements were never flushed although the consumer was ready (%s)", len(tr.WDone)-seen, len(tr.WDone), firstLine(tr.Deadlock))
 	}
@@ -331,15 +341,13 @@ func CheckC08(s Script, tr Trace) error {
 	if tr.NewErr != "" {
 		return nil
 	}
-	// contents at delivery must be the input stream (a scribbled or reused buffer shows here)
-	// (after a v1 Stop/cancel elements may legitimately be dropped: then only the order is required)
-	next := 0
+	// what the consumer scribbled into a slice it owns must never show up in a later output
+	// (order, loss and duplication of genuine elements are C03's business)
 	for k, o := range tr.Outs {
 		for _, v := range o.Snap {
-			if v != next && !(s.Stop != nil && v > next) {
-				return fmt.Errorf("slice #%d was delivered as %v, expected element %d next: a buffer the consumer owned (or scribbled) leaked into a later output", k, o.Snap, next)
+			if v <= -1000000 {
+				return fmt.Errorf("slice #%d was delivered as %v: it contains what the consumer wrote into an earlier slice it owned", k, o.Snap)
 			}
-			next = v + 1
 		}
 	}
 	if !s.NoCopy {
@@ -383,7 +391,7 @@ func CheckC16(s Script, tr Trace) error {
 	if s.Kind != KindV1Join || s.Stop == nil || tr.NewErr != "" {
 		return nil
 	}
-	if tr.Deadlock != "" {
+	if tr.Deadlock != "" && tr.StopReturnedAt < 0 {
 		return fmt.Errorf("Stop()/cancel did not complete: %s", firstLine(tr.Deadlock))
 	}
 	if tr.StopIssuedAt >= 0 && tr.StopReturnedAt < 0 {
